@@ -5,6 +5,7 @@ import (
 	"go/ast"
 	"go/token"
 	"go/types"
+	"os"
 	"sort"
 	"strings"
 )
@@ -382,6 +383,15 @@ func (c *FnCtx) evalBuiltin(env *Env, name string, x *ast.CallExpr) Val {
 		p := c.eval(env, x.Args[0])
 		n := c.eval(env, x.Args[1])
 		return Val{T: app("+", p.T, n.T), Typ: p.Typ}
+	case "Slice":
+		// unsafe.Slice(ptr, n): the slice (ptr, n, n); Go panics when n < 0 or ptr == nil && n > 0
+		p := c.eval(env, x.Args[0])
+		n := c.eval(env, x.Args[1])
+		if pt, ok := c.subst(p.Typ).Underlying().(*types.Pointer); ok {
+			c.safe(st, "unsafeslice", and(app(">=", n.T, "0"), or(app("distinct", p.T, "0"), eq(n.T, "0"))), x)
+			return Val{T: app("mk_Slice", p.T, n.T, n.T), Typ: types.NewSlice(pt.Elem())}
+		}
+		c.unsup(x, "unsafe.Slice of a non-pointer")
 	case "print", "println":
 		for _, a := range x.Args {
 			c.eval(env, a)
@@ -459,7 +469,6 @@ func (c *FnCtx) zeroRange(env *Env, base, n string, elem types.Type) {
 }
 
 func (c *FnCtx) evalAppend(env *Env, x *ast.CallExpr) Val {
-	st := env.st
 	s := c.eval(env, x.Args[0])
 	sl, ok := c.subst(s.Typ).Underlying().(*types.Slice)
 	if !ok {
@@ -477,6 +486,13 @@ func (c *FnCtx) evalAppend(env *Env, x *ast.CallExpr) Val {
 	for _, a := range x.Args[1:] {
 		vals = append(vals, c.assignConv(env, c.eval(env, a), elem))
 	}
+	return c.appendVals(env, s, vals, elem)
+}
+
+// appendVals: append(s, vals...) by the Go specification (in place when the capacity allows,
+// otherwise a fresh backing array).
+func (c *FnCtx) appendVals(env *Env, s Val, vals []Val, elem types.Type) Val {
+	st := env.st
 	n := len(vals)
 	if n == 0 {
 		return s
@@ -937,7 +953,11 @@ func (c *FnCtx) applyContract(env *Env, fn *types.Func, ct *Contract, recv *Val,
 	} else {
 		fi := c.E.ByObj[fn.Origin()]
 		if fi != nil && fi.Decl != nil {
-			c.havocMods(st, c.E.modOfFunc(c, fi))
+			mods := c.E.modOfFunc(c, fi)
+			if os.Getenv("ELKVC_MODS") != "" {
+				fmt.Fprintf(os.Stderr, "mods of %s: %v\n", fi.Key, mods)
+			}
+			c.havocMods(st, mods)
 		}
 	}
 	// results
@@ -1164,6 +1184,69 @@ func (c *FnCtx) opaqueResults(env *Env, key string, sig *types.Signature) Val {
 func (c *FnCtx) builtinLib(env *Env, key string, fn *types.Func, recv *Val, args []Val, x *ast.CallExpr) *Val {
 	switch key {
 	case "unsafe.Add":
+	case "encoding/binary.(bigEndian).PutUint16", "encoding/binary.(bigEndian).PutUint32",
+		"encoding/binary.(bigEndian).Uint16", "encoding/binary.(bigEndian).Uint32":
+		// documented semantics: b[0..n) holds v most significant byte first; panics (bounds
+		// check) when len(b) < n  (trusted library model, listed in the evidence)
+		if c.bv {
+			return nil
+		}
+		nb := 2
+		if strings.HasSuffix(key, "32") {
+			nb = 4
+		}
+		u8 := types.Typ[types.Uint8]
+		b := args[0]
+		c.safe(env.st, "index", app(">=", app("sl_len", b.T), fmt.Sprint(nb)), x)
+		if strings.Contains(key, ".Put") {
+			if len(args) != 2 {
+				return nil
+			}
+			c.Trusted[key+" (modelled as stores of the big-endian bytes)"] = true
+			for i := 0; i < nb; i++ {
+				d := "1"
+				for k := 0; k < nb-1-i; k++ {
+					d = app("*", d, "256")
+				}
+				c.storeTo(env, c.elemAddr(app("sl_ptr", b.T), fmt.Sprint(i), u8), u8, app("mod", app("div", args[1].T, d), "256"))
+			}
+			return &Val{}
+		}
+		c.Trusted[key+" (modelled as the big-endian value of the bytes)"] = true
+		t := "0"
+		for i := 0; i < nb; i++ {
+			t = app("+", app("*", t, "256"), c.loadFrom(env, c.elemAddr(app("sl_ptr", b.T), fmt.Sprint(i), u8), u8).T)
+		}
+		rt := types.Typ[types.Uint16]
+		if nb == 4 {
+			rt = types.Typ[types.Uint32]
+		}
+		return &Val{T: t, Typ: rt}
+	case "encoding/binary.(bigEndian).AppendUint16", "encoding/binary.(bigEndian).AppendUint32":
+		// documented semantics: append(b, byte(v>>8), byte(v)) resp. the four bytes of v, most
+		// significant first (trusted library model, listed in the evidence)
+		if len(args) != 2 {
+			return nil
+		}
+		c.Trusted[key+" (modelled as append of the big-endian bytes)"] = true
+		u8 := types.Typ[types.Uint8]
+		nb := 2
+		if strings.HasSuffix(key, "32") {
+			nb = 4
+		}
+		var vals []Val
+		for i := nb - 1; i >= 0; i-- {
+			d := "1"
+			for k := 0; k < i; k++ {
+				d = app("*", d, "256")
+			}
+			vals = append(vals, Val{T: app("mod", app("div", args[1].T, d), "256"), Typ: u8})
+		}
+		if c.bv {
+			return nil
+		}
+		v := c.appendVals(env, args[0], vals, u8)
+		return &v
 	}
 	return nil
 }
@@ -1243,6 +1326,10 @@ func (e *Engine) modOfAssignsClause(c *FnCtx, fi *FuncInfo, a ast.Expr, out map[
 	case *ast.Ident:
 		if x.Name == "everything" {
 			out["*"] = nil
+			return
+		}
+		if x.Name == "fresh" || x.Name == "nothing" {
+			// only newly allocated objects are written
 			return
 		}
 	case *ast.CallExpr:
